@@ -38,6 +38,7 @@ type WorkerStats struct {
 	LastIndex   int64             `json:"last_index"`
 	Samples     []json.RawMessage `json:"samples"`
 	ClassSample map[string]json.RawMessage `json:"class_sample"`
+	ViolByKey   map[string]int64           `json:"viol_by_key"`
 }
 
 // WorkerOpts configure a worker.
@@ -159,7 +160,7 @@ func WorkerMain(p *Property, o WorkerOpts) int {
 		}
 	}
 
-	st := &WorkerStats{Skips: map[string]int64{}, Classes: map[string]int64{}, ClassSample: map[string]json.RawMessage{}}
+	st := &WorkerStats{Skips: map[string]int64{}, Classes: map[string]int64{}, ClassSample: map[string]json.RawMessage{}, ViolByKey: map[string]int64{}}
 	var hashes []uint64
 	start := time.Now()
 	var idx int64 = -1
@@ -235,7 +236,9 @@ func WorkerMain(p *Property, o WorkerOpts) int {
 			}
 			if out.Violation != "" {
 				st.Violations++
-				if st.Violations <= int64(maxViol) {
+				st.ViolByKey[out.FindingKey]++
+				// at most 4 replayable violations per finding key and worker
+				if st.ViolByKey[out.FindingKey] <= 4 && len(st.ViolByKey) <= maxViol {
 					send(Msg{T: "v", I: idx, Case: getJS(), Outcome: &out}, true)
 				}
 			}
